@@ -99,6 +99,7 @@ type interpreter struct {
 	sched   *scheduler
 	worker  int
 	inInit  bool
+	replayIn *replayInput
 	// diagnostics for the last target panic
 	panicStack []byte
 	panicWhere string
